@@ -262,6 +262,38 @@ def extract_proto(trace, i0, i1, op):
     return evs, failed
 
 
+def extract_kill(trace, i0, i1):
+    """per worker instance: events of the running-task hand-shake (vocabulary of Model/KillSignal.lean)"""
+    out = {}
+    cur = {}
+    n_inst = {}
+    for rec in trace[i0:i1]:
+        role, kind = rec[2], rec[3]
+        if kind == 'start' and isinstance(rec[4], str) and rec[4].startswith('Worker-'):
+            n_inst[rec[4]] = n_inst.get(rec[4], -1) + 1
+            cur[rec[4]] = '%s#%d' % (rec[4], n_inst[rec[4]])
+            out[cur[rec[4]]] = []
+        elif kind == 'value.set' and isinstance(rec[4], str) and rec[4].startswith('running_task['):
+            w = 'Worker-' + rec[4][13:-1]
+            key = cur.get(w)
+            if key is None:
+                continue
+            if role == w:
+                if rec[5]:
+                    out[key].append('n')
+                elif out[key] and out[key][-1] == 'd':
+                    pass        # the exception handler of _run_safely clears the flag again after the interruption: no model event
+                else:
+                    out[key] += ['r', 'c']
+            elif rec[5] is False:
+                out[key].append('k')
+        elif kind == 'signal-delivered' and rec[5] == 10:
+            key = cur.get(rec[4])
+            if key is not None:
+                out[key].append('d')
+    return {k: v for k, v in out.items() if 'k' in v}
+
+
 def extract_disp(trace, i0, i1, op):
     """dispatcher events (vocabulary of Model/Dispatch.lean) of one (i)map_unordered operation"""
     evs = []
@@ -499,6 +531,9 @@ def _run(sc, S, obs):
                     # after a failure / an abandoned lazy call: every instance drops what it holds, queues are drained
                     evs = evs + ([] if failed else ['F']) + ['a:%d' % w for w in range(pool.pool_params.n_jobs)] + ['D']
                 o['proto'] = evs
+                kk = extract_kill(S.trace, o['trace_i0'], o['trace_i1'])
+                if kk:
+                    o['kill'] = kk
                 if kind in ('imap_unordered', 'map_unordered') and o.get('outcome') == 'ok' and op.get('consume', 'all') == 'all' \
                         and op.get('input', 'list') in ('list', 'gen'):
                     o['disp'] = extract_disp(S.trace, o['trace_i0'], o['trace_i1'], op)
